@@ -108,3 +108,44 @@ Proof. intro H. unfold be_val, be_bytes. rewrite <- (rev_length l). rewrite unpa
   apply rev_involutive. Qed.
 Lemma be_val_lt l : wf_bytes l -> be_val l < 256 ^ N.of_nat (length l).
 Proof. intro H. unfold be_val. rewrite <- (rev_length l). apply pack_lt, wf_rev; auto. Qed.
+
+(* ---- bounded takes: O(n) in the number of bytes taken, never in the length of the input ---- *)
+Fixpoint take_n (n : nat) (l : bytes) : option (bytes * bytes) :=
+  match n with
+  | O => Some ([], l)
+  | S k => match l with
+           | [] => None
+           | x :: r => match take_n k r with Some (a, b) => Some (x :: a, b) | None => None end
+           end
+  end.
+
+Lemma take_n_spec : forall n l, take_n n l = if Nat.leb n (length l) then Some (firstn n l, skipn n l) else None.
+Proof. induction n as [|n IH]; intro l; cbn [take_n].
+  - reflexivity.
+  - destruct l as [|x r]; [reflexivity|]. rewrite IH. cbn [length firstn skipn Nat.leb].
+    destruct (Nat.leb n (length r)); reflexivity. Qed.
+
+Lemma take_n_app (a b : bytes) : take_n (length a) (a ++ b) = Some (a, b).
+Proof. induction a as [|x a IH]; cbn [length app take_n]; [reflexivity|]. rewrite IH. reflexivity. Qed.
+
+Lemma take_n_some n l a b : take_n n l = Some (a, b) -> l = a ++ b /\ length a = n.
+Proof. rewrite take_n_spec. destruct (Nat.leb_spec n (length l)) as [Hle|Hgt]; [|discriminate]. intro Hx; inversion Hx; subst.
+  split; [symmetry; apply firstn_skipn | rewrite firstn_length; lia]. Qed.
+
+Lemma take_n_none n l : take_n n l = None -> (length l < n)%nat.
+Proof. rewrite take_n_spec. destruct (Nat.leb_spec n (length l)); [discriminate|auto]. Qed.
+
+(* the same with a binary count (declared frame lengths go up to 2^63-1: never converted to nat) *)
+Fixpoint take_N (l : bytes) (n : N) : option (bytes * bytes) :=
+  if n =? 0 then Some ([], l) else
+  match l with
+  | [] => None
+  | x :: r => match take_N r (N.pred n) with Some (a, b) => Some (x :: a, b) | None => None end
+  end.
+
+Lemma take_N_spec : forall l n, take_N l n = if n <=? N.of_nat (length l) then Some (firstn (N.to_nat n) l, skipn (N.to_nat n) l) else None.
+Proof. induction l as [|x r IH]; intro n; cbn [take_N].
+  - destruct (N.eqb_spec n 0) as [->|Hn]; [reflexivity|]. cbn [length]. destruct (N.leb_spec n (N.of_nat 0)); [lia|reflexivity].
+  - destruct (N.eqb_spec n 0) as [->|Hn]; [reflexivity|]. rewrite IH. cbn [length].
+    replace (N.to_nat n) with (S (N.to_nat (N.pred n))) by lia. cbn [firstn skipn].
+    destruct (N.leb_spec (N.pred n) (N.of_nat (length r))); destruct (N.leb_spec n (N.of_nat (S (length r)))); try lia; reflexivity. Qed.
